@@ -1190,6 +1190,62 @@ def robustness(ctx, cuqi, rng, lines, pending, verdicts, nconf):
                     lhs, rhs = bs[1] - z[1], sc * (b1[1] - z[1])
                     if np.abs(lhs - rhs).max() > 1e-6 * (np.abs(rhs).max() + (np.abs(z[1]).max() if sc < 1 else 0) * 1e-3 + 1e-300):
                         ctx.fail("robust:nd:scaled:value", {**conf, "call": "robustness", "probe": f"scale {sc}"}, rhs.tolist(), lhs.tolist(), "linear model is not homogeneous at extreme scales")
+        # ---- Samples whose consecutive columns are distinct but (nearly) equal: tiny magnitudes, slow chains, exact repeats.
+        #      Every column must get ITS OWN output (tolerance-based "unchanged" tests would copy the predecessor's).
+        def chain_probe(label, P):
+            c = do(f"samples:{label}", lambda: model.forward(Samples(P.copy(), geometry=Dg)), fl(f"smp:1:0:{qm(P.T)}"), None, [P])
+            desc = {**conf, "call": "robustness", "probe": f"samples:{label}", "columns": P.T.tolist()}
+            refc = np.column_stack([ref_of(P[:, j]) for j in range(P.shape[1])])
+            if c[0] != "smp" or c[3].shape != refc.shape:
+                ctx.fail(f"robust:samples:{label}:columnwise", desc, refc.tolist(), short(c), "Samples are not mapped column by column")
+                return
+            got = c[3]
+            for j in range(1, P.shape[1]):
+                wd, gd = refc[:, j] - refc[:, j - 1], got[:, j] - got[:, j - 1]
+                sc_ = np.abs(wd).max()
+                noise = 1e-13 * (1.0 + np.abs(refc[:, j]).max())
+                if sc_ > 50 * noise and np.abs(gd - wd).max() > 0.05 * sc_ + 10 * noise:
+                    ctx.fail(f"robust:samples:{label}:columnwise", {**desc, "column": j}, {"increment": wd.tolist()}, {"increment": gd.tolist()},
+                             "a column that differs slightly from its predecessor did not get its own output")
+                    verdicts["robust:wrong"] = verdicts.get("robust:wrong", 0) + 1
+                    return
+            if not veq(got, refc, 1e-9):
+                ctx.fail(f"robust:samples:{label}:columnwise", desc, refc.tolist(), got.tolist(), "Samples are not mapped column by column")
+            else:
+                verdicts["robust:ok"] = verdicts.get("robust:ok", 0) + 1
+        base = np.abs(xa) + 1.0
+        tiny = np.column_stack([(base + k) * 1e-9 for k in range(4)])                     # all |x| ~ 1e-9, distinct
+        slow = np.column_stack([1000.0 * base + k * 1e-4 * base for k in range(4)]) if not mk.startswith("pde") else \
+            np.column_stack([base * (1 + k * 1e-7) for k in range(4)])
+        drift = np.column_stack([base * (1 + k * 2e-6) for k in range(5)])                  # relative steps below 1e-5
+        rep = np.column_stack([xa, xa, xb, xb, xa])                                       # exact repeats and a return
+        chain_probe("tiny-magnitude", tiny)
+        chain_probe("slow-chain", slow)
+        chain_probe("drift", drift)
+        chain_probe("repeated-columns", rep)
+        # ---- array properties other than the numbers (G7): strides, negative strides, read-only, Fortran / transposed Samples
+        buf = np.zeros(2 * n); buf[::2] = xa
+        xs_view = buf[::2]
+        do("nd:strided-view", lambda: model.forward(xs_view), fl(f"nd:{qv(xa)}"), w_nd(xa), [buf], "layout")
+        rbuf = xa[::-1].copy()
+        do("nd:negative-stride", lambda: model.forward(rbuf[::-1]), fl(f"nd:{qv(xa)}"), w_nd(xa), [rbuf], "layout")
+        ro = xa.copy(); ro.flags.writeable = False
+        do("nd:read-only", lambda: model.forward(ro), fl(f"nd:{qv(xa)}"), w_nd(xa), [ro], "layout")
+        XF = np.asfortranarray(Xs.copy())
+        do("samples:fortran-order", lambda: model.forward(Samples(XF, geometry=Dg)), fl(f"smp:1:0:{qm(Xs.T)}"), w_smp(Xs), [XF], "layout")
+        XT = np.ascontiguousarray(Xs.T.copy())
+        do("samples:transposed-view", lambda: model.forward(Samples(XT.T, geometry=Dg)), fl(f"smp:1:0:{qm(Xs.T)}"), w_smp(Xs), [XT], "layout")
+        if formable:
+            do("grad:strided-view", lambda: model.gradient(d, xs_view), gl(f"nd:{qv(d)}", f"nd:{qv(xa)}"), ("nd", ref_grad(xa)), [buf, d], "layout-gradient", 1e-5)
+        # ---- narrow dtypes whose own arithmetic wraps (uint8 / int8 / float16): only where the model function itself works in
+        #      float64 (matrix models, PDE models); a user callable cubing an int8 array is the user's business
+        if mk.split("-")[0] in ("linmat", "heat", "pde") and D.family == "id":
+            xn = np.abs(xa)
+            for dt_name, dt in (("uint8", np.uint8), ("int8", np.int8), ("float16", np.float16)):
+                xt = xn.astype(dt)
+                do(f"nd:{dt_name}", lambda: model.forward(xt), fl(f"nd:{qv(xn)}"), w_nd(xn), [xt], "dtype")
+                Xt = np.abs(Xs).astype(dt)
+                do(f"samples:{dt_name}", lambda: model.forward(Samples(Xt, geometry=Dg)), fl(f"smp:1:0:{qm(np.abs(Xs).T)}"), w_smp(np.abs(Xs)), [Xt], "dtype")
         # ---- non-float64 inputs: the same numbers as int64 / int32 / float32 / bool / list
         for dt_name, dt in (("int64", np.int64), ("int32", np.int32), ("float32", np.float32), ("bool", np.bool_), ("list", None)):
             src = xbool if dt_name == "bool" else xa
@@ -1384,10 +1440,18 @@ def histories(ctx, cuqi, rng, lines, pending, verdicts, nhist):
     hist_ops = ctx.extra_cov.setdefault("history_ops", {})
     for hi in range(nhist):
         n = int(rng.randint(2, 6))
+        # every fourth history: a function-backed model on a NON identity-like domain geometry that provides `gradient`
+        # (mapped 3x+b / step expansion / user geometry) - get_matrix() then caches a PARAMETER-space matrix
+        Dgeo = None
+        if hi % 4 == 1:
+            Dgeo = make_geometries(cuqi, rng, int(rng.randint(2, 4)), ["map-aff-1-1d", "step", "custom"][(hi // 4) % 3])
+            install_geom_gradient(Dgeo, ["s", "x"][(hi // 12) % 2])
+            n = int(np.prod(Dgeo.fun_shape))
+        npar = n if Dgeo is None else Dgeo.par_dim
         raws = _raw_callables(n, rng)
         names = sorted(raws)
         cname = names[hi % len(names)]
-        backed = "matrix" if hi % 5 == 4 else "function"
+        backed = "matrix" if (hi % 5 == 4 and Dgeo is None) else "function"
         raw = raws[cname]
         A = np.column_stack([raw(e) for e in np.eye(n)])            # the callable is linear: its matrix (harness' own evaluation)
         exact = cname != "fft-circular"
@@ -1403,7 +1467,11 @@ def histories(ctx, cuqi, rng, lines, pending, verdicts, nhist):
             return G.Continuous1D(np.arange(n) * 0.5 + 1.0)
         dkind = ["int", "cont1d", "default", "discrete", "grid"][hi % 5] if hi < 10 else str(rng.choice(["int", "cont1d", "discrete", "grid"]))
         rkind = str(rng.choice(["int", "cont1d", "discrete", "grid"]))
-        Dobj = None if dkind == "default" else mk_geom(dkind)
+        if Dgeo is not None:
+            dkind = Dgeo.label
+            if rkind == "int":
+                rkind = "cont1d"
+        Dobj = None if dkind == "default" else (Dgeo.obj if Dgeo is not None else mk_geom(dkind))
         Robj = None if dkind == "default" else mk_geom(rkind)
         fwd_calls = {"n": 0, "max_ndim": 0}
 
@@ -1439,14 +1507,14 @@ def histories(ctx, cuqi, rng, lines, pending, verdicts, nhist):
         eqr = eq_eval(Dg, Rg) + eq_eval(Rg, Dg)
         canon = Canon(cuqi, [(Dg, 0), (Rg, 1)])
         Ns = int(rng.randint(2, 5))
-        Xs = rng.randint(-3, 4, size=(n, Ns)).astype(float)
+        Xs = rng.randint(-3, 4, size=(npar, Ns)).astype(float)
         Ys = rng.randint(-3, 4, size=(n, Ns)).astype(float)
         x, y = Xs[:, 0].copy(), Ys[:, 0].copy()
         nops = int(rng.randint(1, 6))
         ops = [str(o) for o in rng.choice(OPS, size=nops)]
-        if hi % 2 == 0:
-            ops = ["get_matrix"] + ops          # the caching call first in half of the histories
-        Dt, Rt = "id:0:1:none", "id:1:1:none"
+        if hi % 2 == 0 or Dgeo is not None:
+            ops = ["get_matrix"] + ops          # the caching call first in half of the histories (always on expansion / mapped domains)
+        Dt, Rt = ("id:0:1:none" if Dgeo is None else Dgeo.token(0)), "id:1:1:none"
         # probes: (label, thunk, driver line)  -- adjoint = forward of the swapped model
         fw = lambda tok, ip=True: f"fwd {mtok} {Dt} {Rt} {eqr} {tok} {tok_bool(ip)} 1 _"
         adj_tok = f"linfun:0:{qm(A.T)}:{qm(A)}:y" if backed == "function" else f"linmat:{qm(A.T)}"
@@ -1461,6 +1529,10 @@ def histories(ctx, cuqi, rng, lines, pending, verdicts, nhist):
             ("adjoint-vec", lambda: model.adjoint(y.copy()), ad(f"nd:{qv(y)}")),
             ("adjoint-arr", lambda: model.adjoint(CUQIarray(y.copy(), geometry=Rg)), ad(f"arr:1:1:{qv(y)}")),
         ]
+        probes += [("gradient-nd", lambda: model.gradient(y.copy(), x.copy()), f"grad {mtok} {Dt} {Rt} {eqr} nd:{qv(y)} nd:{qv(x)} 1 1"),
+                   ("gradient-dir-arr", lambda: model.gradient(CUQIarray(y.copy(), geometry=Rg), x.copy()), f"grad {mtok} {Dt} {Rt} {eqr} arr:1:1:{qv(y)} nd:{qv(x)} 1 1")]
+        if Dgeo is not None:
+            probes = [p_ for p_ in probes if not p_[0].startswith("adjoint")]      # adjoint on expansion geometries is C07's subject
         conf = {"history": True, "callable": cname, "backed": backed, "domain": dkind, "range": rkind, "n": n, "ops": ops,
                 "seed_index": 100000 + hi, "Xs": Xs.tolist(), "Ys": Ys.tolist()}
 
@@ -1502,12 +1574,18 @@ def histories(ctx, cuqi, rng, lines, pending, verdicts, nhist):
                 ctx.note(f"history op {o} raised {type(e).__name__} ({cname}, {backed}, {dkind}->{rkind})")
         after = run_probes()
         # oracle: explicit loop over fresh columns with the raw callable / the transposed matrix
-        fcols = np.column_stack([raw(Xs[:, j].copy()) for j in range(Ns)])
+        def comp(p):
+            with quiet():
+                return np.asarray(raw(np.asarray(Dg.par2fun(np.array(p, dtype=float)), dtype=float)), dtype=float)
+        fcols = np.column_stack([comp(Xs[:, j]) for j in range(Ns)])
+        Jc = np.column_stack([(comp(x + 0.5 * e) - comp(x - 0.5 * e)) for e in np.eye(npar)])     # exact: the composition is affine here
+        gwant = Jc.T @ y
         acols = np.column_stack([A.T @ Ys[:, j].copy() for j in range(Ns)])
         want = {"forward-samples": ("smp", 1, True, fcols), "forward-samples-nogeom": ("smp", 1, True, fcols),
                 "matmul-samples": ("smp", 1, True, fcols),
                 "forward-vec": ("nd", fcols[:, 0]), "forward-arr": ("arr", True, 1, fcols[:, 0]),
-                "adjoint-samples": ("smp", 0, True, acols), "adjoint-vec": ("nd", acols[:, 0]), "adjoint-arr": ("arr", True, 0, acols[:, 0])}
+                "adjoint-samples": ("smp", 0, True, acols), "adjoint-vec": ("nd", acols[:, 0]), "adjoint-arr": ("arr", True, 0, acols[:, 0]),
+                "gradient-nd": ("nd", gwant), "gradient-dir-arr": ("arr", True, 0, gwant)}
         eq_bad = ("I" in eqr) or ("K" in eqr)
         for (lab, th, line), when, res in [(p, w, r[p[0]]) for p in probes for w, r in (("fresh", before), ("after-history", after))]:
             desc = {**conf, "call": "history", "probe": lab, "when": when}
